@@ -476,7 +476,7 @@ package table
 //@ func UpdatePathAttrs4ByteAs
 //@   math-int
 //@   claims inv-init inv-keep step at-call
-//@   loop 3 invariant asLen >= 0 && asConfedLen >= 0
+//@   loop 3 invariant asLen >= 0
 //@   loop 4 invariant as4Len >= 0
 //@   loop 5 invariant keepNum >= 0 && keepNum + as4Len <= asLen
 //@   loop 5 step keepNum >= 1 && header(keepNum) - keepNum == segASLen(param)
